@@ -658,7 +658,15 @@ def boundary_values(n, full=True):
         return [bytes(1 + (i * 7 + m) % 255 for i in range(m)) for m in lens]
     if k == "barr":
         m = n[1]
-        return _distinct(n, [bytes(m), b"\xff" * m, bytes((i + 1) & 0xff for i in range(m)), b"\xf6" * m], lambda v: v)
+        special = []
+        if m == 16:
+            # the octets of an IPv6 address: IPv4-mapped (::ffff:a.b.c.d), IPv4-compatible, loopback, link-local, multicast
+            special = [bytes(10) + b"\xff\xff" + bytes([192, 0, 2, 1]), bytes(10) + b"\xff\xff\xff\xff\xff\xff", bytes(10) + b"\xff\xff" + bytes(4),
+                       bytes(12) + bytes([127, 0, 0, 1]), bytes(15) + b"\x01", b"\xfe\x80" + bytes(13) + b"\x01", b"\xff\x02" + bytes(13) + b"\x01",
+                       b"\x00\x64\xff\x9b" + bytes(8) + bytes([192, 0, 2, 33]), b"\x20\x01\x0d\xb8" + bytes(12)]
+        if m == 4:
+            special = [bytes([127, 0, 0, 1]), bytes([192, 0, 2, 1]), bytes([255, 255, 255, 255]), bytes([10, 0, 0, 0]), bytes([224, 0, 0, 1])]
+        return _distinct(n, [bytes(m), b"\xff" * m, bytes((i + 1) & 0xff for i in range(m)), b"\xf6" * m] + special, lambda v: v)
     if k == "unit":
         return [()]
     if k == "opt":
@@ -673,6 +681,10 @@ def boundary_values(n, full=True):
             out.append(_fill(n[1], m, [] if k in ("set", "uset") else el))
         if k == "ubag":
             out.append([el[0]] * 3 + el[:2])                   # duplicates are legal in a BinaryHeap
+        if k not in ("set", "uset") and (n[1][0] in LISTY or n[1][0] in ("map", "umap", "str", "bytes", "opt", "unit")):
+            # long runs of EMPTY / nil elements: whatever a decoder counts per container opened must not add up
+            e = simple_value(n[1])
+            out += [[e] * 127, [e] * 128, [e] * 129, [e] * 300, [e] * 127 + el[:3] + [e] * 130]
         return [x for x in (normalise_list(n, v) for v in out)]
     if k == "arr":
         el = boundary_values(n[2], False)
